@@ -225,6 +225,8 @@ impl OutputFormat for XBin {
         } else {
             read_data_uncompressed(&mut result, &data[o..])?;
         }
+        // the buffer was created with 25 rows: drop the ones the picture does not have
+        result.layers[0].lines.truncate((height.max(1)) as usize);
         crate::crop_loaded_file(&mut result);
 
         Ok(result)
